@@ -26,7 +26,7 @@ class C03(Spec):
     needs_factx = True
     rule = ("generated (type, value) pairs over the whole type universe (scalars, json.Number, []byte, RawMessage, slices, arrays, "
             "pointers, maps of every key kind, interface{}, structs with every tag combination, library types with value/pointer "
-            "receiver (Text)Marshalers, recursive types, embedded fields); a case is non-trivial when its type has a constructor "
+            "receiver (Text)Marshalers - also of pointer-shaped kinds: struct{*T}, [1]*T, map, each at every position class and embedded -, recursive types, embedded fields); a case is non-trivial when its type has a constructor "
             "(container, struct, library type) or its value needs an escape, is a float, or is an error-path value")
     trusted_base = ["encoding/json (Go 1.23.5) as executable reference; omitzero (Go 1.24) is judged against the model only",
                     "callback leaf types (MV/MP/TV/TP) are parameters of the model with their Go bodies transcribed by hand"]
